@@ -49,32 +49,47 @@ theorem callCatch_mono {f f' : F} (hle : FLe f f') {c : Cls} {s : St} {o : Outco
   rw [hle c s this]
   exact heq
 
-theorem doHook_mono {f f' : F} (hle : FLe f f') {cfg : Cfg} {v : LoopVars} {s : St} {r : HookRes}
-    {s' : St} (heq : doHook env f cfg v s = (r, s')) (hr : r ≠ .raise .outOfFuel) :
-    doHook env f' cfg v s = (r, s') := by
+theorem doHook_mono {f f' : F} (hle : FLe f f') {fuel : Nat} {cfg : Cfg} {v : LoopVars} {s : St}
+    {r : HookRes} {s' : St} (heq : doHook env f fuel cfg v s = (r, s'))
+    (hr : r ≠ .raise .outOfFuel) : doHook env f' (fuel + 1) cfg v s = (r, s') := by
   unfold doHook at heq ⊢
   split
   · rename_i hd
     rw [if_pos hd] at heq
-    split
-    · rename_i hs
-      simp only [hs] at heq
-      exact heq
-    · rename_i sc hs
-      simp only [hs] at heq
-      have : (f sc s).1 ≠ .raise .outOfFuel := by
-        intro h
-        split at heq
-        · rename_i e s1 h1
-          rw [h1] at h
-          simp only [Outcome.raise.injEq] at h
-          subst h
-          simp only [Prod.mk.injEq] at heq
-          exact hr heq.1.symm
-        · rename_i s1 h1; rw [h1] at h; cases h
-        · rename_i t s1 h1; rw [h1] at h; cases h
-      rw [hle sc s this]
-      exact heq
+    generalize hl : hookLead env fuel s = lr at heq
+    obtain ⟨r0, s0⟩ := lr
+    have hl' : hookLead env (fuel + 1) s = (r0, s0) := by
+      unfold hookLead at hl ⊢
+      split
+      · rename_i hq
+        rw [if_pos hq] at hl
+        apply addCID_mono hl
+        intro h; subst h
+        simp only [Prod.mk.injEq] at heq
+        exact hr heq.1.symm
+      · rename_i hq; rw [if_neg hq] at hl; exact hl
+    rw [hl']
+    cases r0 with
+    | error e => exact heq
+    | ok lead =>
+      simp only at heq ⊢
+      split
+      · rename_i hs; simp only [hs] at heq; exact heq
+      · rename_i sc hs
+        simp only [hs] at heq
+        have : (f sc s0).1 ≠ .raise .outOfFuel := by
+          intro h
+          split at heq
+          · rename_i e s1 h1
+            rw [h1] at h
+            simp only [Outcome.raise.injEq] at h
+            subst h
+            simp only [Prod.mk.injEq] at heq
+            exact hr heq.1.symm
+          · rename_i s1 h1; rw [h1] at h; cases h
+          · rename_i t s1 h1; rw [h1] at h; cases h
+        rw [hle sc s0 this]
+        exact heq
   · rename_i hd
     rw [if_neg hd] at heq
     exact heq
@@ -104,7 +119,7 @@ theorem blockLoop_mono {f f' : F} (hle : FLe f f') {cfg : Cfg} {classes : List C
           simp only [Prod.mk.injEq] at heq; exact hr heq.1.symm
         rw [doHook_mono hle h1 (by intro h; injection h with h; exact he h)]
         exact heq
-      · rename_i t s1 h1
+      · rename_i ts s1 h1
         rw [doHook_mono hle h1 (by intro h; cases h)]
         exact ih heq
       · rename_i sa h1
